@@ -42,11 +42,25 @@ def _fix_field(f, rng):
             persistable(f["item"], rng)
     if f["family"] == "any":
         f["params"].pop("default", None)
+    if "default" in f["params"] and ((f["family"] == "list" and (f.get("item") is None or untyped(f.get("item")))) or (
+            f["family"] == "dict" and (f.get("valf") is None or untyped(f.get("valf"))))):
+        if _has_bytes(f["params"]["default"]) or not _no_nan(f["params"]["default"]):
+            f["params"].pop("default", None)
     if f["family"] == "secure":
         f["params"].pop("required", None)  # '' is accepted by a required secret but stored as unset (open status)
     if f["family"] in ("list", "dict") and "default" in f["params"] and (
             not _plain(f["params"]["default"]) or _holds(f, "secure") or _holds(f, "any")):
         f["params"].pop("default", None)
+
+
+def _has_bytes(v):
+    if isinstance(v, bytes):
+        return True
+    if isinstance(v, list):
+        return any(_has_bytes(x) for x in v)
+    if isinstance(v, dict):
+        return any(_has_bytes(x) for x in v.values())
+    return False
 
 
 def _holds(f, fam):
